@@ -55,4 +55,76 @@ example : monOp { sender := 7 } .reset ⟨true, 1, 1, false, []⟩ = ["creation_
 example : monOp { sender := 7 } .reopen ⟨true, 1, 1, false, []⟩ = ["counters_differ{op=reopen}"] := by decide
 example : monOp { sender := 7 } .refresh ⟨true, 7, 1, true, []⟩ = ["creation_time_differs{op=refresh}"] := by decide
 
+/-! ## C17 — the recovery monitor
+
+  Observation of a fresh store opened on a crash image (harness family `crash`): did the open succeed, both counters,
+  `GetMessages` over the whole range, `GetMessages(n, n)` for some probed numbers.  Context: the abstract store before
+  (`pre`) and after (`post`) the interrupted operation, the message being saved if any, every (number, bytes) pair ever
+  handed to a save in this epoch.  The window `{after, in, cut, mode}` names the two primitives around the crash point as
+  reported by the hook of the real store; it is the seed-independent context of a finding. -/
+
+structure RecObs where
+  ok : Bool                 -- the store could be opened
+  prev : String             -- last completed primitive (`start` if none)
+  cur : String              -- primitive in flight / next (`end` if the operation had finished)
+  cut : String              -- `none` (between primitives) | `mid` (inside the write `cur`)
+  mode : String             -- process | power
+  sender : Int
+  target : Int
+  allEnd : String           -- ok | err | panic
+  all : List Bytes
+  qs : List (Nat × String × List Bytes)
+  deriving Repr, DecidableEq, Inhabited
+
+def RecObs.windowInner (r : RecObs) : String :=
+  if r.cut = "mid" then "in=" ++ r.cur ++ ",cut=mid,mode=" ++ r.mode
+  else "after=" ++ r.prev ++ ",in=" ++ r.cur ++ ",cut=none,mode=" ++ r.mode
+def RecObs.window (r : RecObs) : String := "{" ++ r.windowInner ++ "}"
+
+def values (m : MsgMap) : List Bytes := m.map (·.2)
+def lookupMsg (m : MsgMap) (n : Nat) : Option Bytes := (m.find? fun p => p.1 == n).map (·.2)
+
+/-- clause names only (the driver appends the window) -/
+def monRecovered (pre post : AStore) (inflight : Option (Nat × Bytes)) (saved : List (Nat × Bytes)) (r : RecObs) : List String :=
+  if !r.ok then ["reopen_fails"] else
+  let genuine := fun (n : Nat) (x : Bytes) => saved.any fun p => p.1 == n && p.2 == x
+  let genuineAny := fun (x : Bytes) => saved.any fun p => p.2 == x
+  -- every message whose save had completed is returned intact
+  let lostAll := r.allEnd ≠ "ok" ∨ (r.all ≠ values pre.msgs ∧ r.all ≠ values post.msgs ∧ r.all.all genuineAny)
+  let lostQ := r.qs.any fun q =>
+    match lookupMsg pre.msgs q.1, lookupMsg post.msgs q.1 with
+    | some m, some m' => m == m' && !(q.2.1 == "ok" && q.2.2 == [m])
+    | _, _ => false
+  -- each recovered counter equals its value before or after the interrupted operation
+  let ctr := (r.sender ≠ pre.sender ∧ r.sender ≠ post.sender) ∨ (r.target ≠ pre.target ∧ r.target ≠ post.target)
+  -- the recovered outbound counter says n was used ⇒ message n is retrievable intact
+  let used := match inflight with
+    | some (n, m) => decide (pre.sender ≠ post.sender ∧ r.sender = post.sender) &&
+        r.qs.any fun q => q.1 == n && !(q.2.1 == "ok" && q.2.2 == [m])
+    | none => false
+  -- no torn or foreign bytes are ever returned for a sequence number
+  let torn := (r.qs.any fun q => q.2.2.any fun x => !genuine q.1 x) || r.all.any fun x => !genuineAny x
+  (if lostAll ∨ lostQ then ["completed_saves_lost"] else [])
+  ++ (if ctr then ["counter_neither_before_nor_after"] else [])
+  ++ (if used then ["used_not_retrievable"] else [])
+  ++ (if torn then ["torn_or_foreign_bytes"] else [])
+
+/-- after a recovery: nothing a later retrieval returns for numbers in [b, e] may be torn or foreign -/
+def monForeignRange (saved : List (Nat × Bytes)) (b e : Int) (msgs : List Bytes) : Bool :=
+  msgs.any fun x => !(saved.any fun p => inRange b e p.1 && p.2 == x)
+
+/-! monitor sensitivity -/
+private def pre2 : AStore := { sender := 3, target := 1, msgs := [(1, [65]), (2, [66])] }
+private def post3 : AStore := { sender := 4, target := 1, msgs := [(1, [65]), (2, [66]), (3, [67, 67])] }
+private def saved3 : List (Nat × Bytes) := [(1, [65]), (2, [66]), (3, [67, 67])]
+private def goodRec : RecObs := ⟨true, "write-header", "write-body", "none", "process", 3, 1, "ok", [[65], [66]], [(3, "ok", [])]⟩
+example : monRecovered pre2 post3 (some (3, [67, 67])) saved3 goodRec = [] := by decide
+example : monRecovered pre2 post3 (some (3, [67, 67])) saved3 { goodRec with ok := false } = ["reopen_fails"] := by decide
+example : monRecovered pre2 post3 (some (3, [67, 67])) saved3 { goodRec with allEnd := "err", all := [[65]] } = ["completed_saves_lost"] := by decide
+example : monRecovered pre2 post3 (some (3, [67, 67])) saved3 { goodRec with all := [[65]] } = ["completed_saves_lost"] := by decide
+example : monRecovered pre2 post3 (some (3, [67, 67])) saved3 { goodRec with sender := 13 } = ["counter_neither_before_nor_after"] := by decide
+example : monRecovered pre2 post3 (some (3, [67, 67])) saved3 { goodRec with sender := 4 } = ["used_not_retrievable"] := by decide
+example : monRecovered pre2 post3 (some (3, [67, 67])) saved3 { goodRec with qs := [(3, "ok", [[67]])] } = ["torn_or_foreign_bytes"] := by decide
+example : monRecovered pre2 post3 (some (3, [67, 67])) saved3 { goodRec with qs := [(2, "ok", [[65]])] } = ["completed_saves_lost", "torn_or_foreign_bytes"] := by decide
+
 end Qfx.Spec.Store
